@@ -98,6 +98,30 @@ EXTRA = {
     "C20": " Length-encoded EXECUTE parameters whose multi-byte length prefix is cut short, for every length-encoded type code. Well-formed requests of 2^24-1 + tail bytes for tails 0..70000 (thorough: up to 2^24+6) under five read patterns must be served. Replies of 252..260 and 508..516 packets in lock-step: a reply or an error return, never silence.",
 }
 
+# added after rounds 9-14 of seeded changes (DESIGN.md 11.1, "As built"): one more sentence per check
+EXTRA2 = {
+    "C01": " SQL-shaped texts, texts whose tail is not UTF-8 (refused exactly), and a large single-packet command read together with the tail of a split predecessor.",
+    "C02": " Edge statement ids; the texts the library answers itself for COM_QUERY are also sent as PREPARE texts (they must reach on_prepare verbatim).",
+    "C03": " Programs whose writers are dropped, left implicit or abandoned mid-row; the recover programs (the backend goes on after a writer returned Err: the reply must still be one conformant unit).",
+    "C04": " Client-side reassembly of replies, typed cells and NULLs behind a blob that already filled a packet, and the recover programs' reply shapes.",
+    "C05": " A 70 000-packet reply; the recover programs' ids on plaintext connections.",
+    "C06": " Resultsets behind a long reply; the recover programs: every cell whose call returned Ok arrives with its value, refused cells leave nothing behind.",
+    "C07": " Integers of the may-group band; the recover programs in binary mode: a refused value leaves no byte in the row (this found the defect repaired by 5d049c8).",
+    "C08": " Edge statement ids, another statement prepared in between, 65535 parameters, MYSQL_TYPE_NULL as a bound type.",
+    "C09": " Chains of resultsets and PREPARE replies on one connection, statement hoarders, texts containing '?', 65535 parameters/columns.",
+    "C10": " PREPARE texts that look like the built-in queries.",
+    "C11": " TLS connections that meet an interrupted write during the login exchange; structured handshake tails (auth data, database, plugin, connection attributes).",
+    "C12": " Commands pipelined behind commands that have no reply, on connections whose buffer has grown.",
+    "C13": " The same error reported repeatedly through a reused buffer; the recover programs' error fields.",
+    "C14": " Four ways to end a zero-column set, and long chains.",
+    "C15": " Column flags beyond UNSIGNED, definitions announced in another order than started, the recover programs in binary mode.",
+    "C16": " Statements executed with a type block they never bound.",
+    "C17": " Long-lived statements and high parameter indexes.",
+    "C18": " The same conversations over a loopback TCP socket (run_on_tcp), a transport that buffers writes until flush, an in-TLS response with or without the SSL bit, an anonymous user.",
+    "C19": " Conversations of 251/252 rows in the enumeration corpus.",
+    "C20": " Execute histories, no-reply commands, the built-in replies in lock-step under varied request ids, login replies over TLS under any pair of ids, out-of-order fragment ids (this found the defect repaired by aab5bb0).",
+}
+
 ALL = ["C%02d" % i for i in range(1, 21)]
 
 
@@ -111,7 +135,8 @@ def main():
             text += " In addition the shared mega workload (props/mega.rs: long model-driven histories mixing every command kind, re-prepares, rebind/reuse/long-data executions, chained responses, repeated headers, replies around 256 packets, megabyte commands, dead-id operations) is run under this property's own monitor" + (" over TLS against its plaintext twin." if pid == "C18" else ".")
             tech += "; shared mega-history workload under the same oracle"
         text += EXTRA.get(pid, "")
-        text += " Before a sixth of the cases one to three predecessor connections run on the same thread and end badly (write error inside a reply, backend error inside a row, abandoned long data, ...): what they leave behind must not matter."
+        text += EXTRA2.get(pid, "")
+        text += " Before a sixth of the cases one to three predecessor connections run on the same thread and end badly (write error inside a reply, backend error inside a row, abandoned long data, ...): what they leave behind must not matter; during an eighth of the cases another connection is served on a second thread at a chosen read of the monitored one. " + ("The check runs the workload twice, on the overflow/debug-assertion checked build and on the release build, at two seeds (the build without the library's tls feature cannot serve this property)." if pid == "C18" else "The check runs the workload three times on three builds at three seeds: overflow/debug-assertion checked, release, and the library built without its tls cargo feature.")
         checks.append({
             "property_id": pid,
             "quick_cmd": "./check %s quick" % pid,
@@ -141,7 +166,7 @@ def main():
             "name": "vmon",
             "path": "/verif/harness",
             "serves_properties": sorted(CHECKS.keys()),
-            "kind_free_text": "Rust harness linking the real msql-srv from /repo (path dependency, rebuilt on every check in two profiles: overflow/debug-assertion checked and release); in-memory fault-injecting transport, scripted recording shim, independent wire codec as oracle, sequential reference model; thorough tier adds AddressSanitizer, valgrind memcheck and Miri passes over the same workloads",
+            "kind_free_text": "Rust harness linking the real msql-srv from /repo (path dependency, rebuilt on every check in three flavours: overflow/debug-assertion checked, release, and without the library's `tls` cargo feature); in-memory fault-injecting transport, scripted recording shim, independent wire codec as oracle, sequential reference model; thorough tier adds AddressSanitizer, valgrind memcheck and Miri passes over the same workloads",
         }],
         "checks": checks,
         "not_applicable": na,
